@@ -146,14 +146,39 @@ CLAIMED = {
         design="6/C10", technique="Coq proof (write loops: exact bytes for every transport split) + differential execution of scripted multi-writer poll orders with record-decoding oracle",
         note="multi-writer exclusion not yet proved (model + correspondence); futures-util Mutex modelled as owner field; fairness not claimed."),
     "C12": dict(
-        text="Proof, partial: for every write script (zero-length writes and errors at any call index included) write_all either writes everything or "
-             "fails having written only a prefix, reporting the failure (C12_write_all); a handler's stream write leaves a prefix of the well-formed "
-             "record sequence (C12_writer_prefix). Termination without panic/spin for EOF at any byte offset and faults at any call index, 'no handler "
-             "for an incomplete preamble' and 'unexpected-EOF instead of a short success' are decided by the correspondence check (EOF at every byte "
-             "offset of short connections, a read error at every read index, a write error/zero write at every write index) + oracle; the "
-             "totality proof of the connection model is in progress.",
-        design="6/C12", technique="Coq proof (write path under faults) + exhaustive fault-position enumeration per scripted connection through model and crate",
-        note="totality of the whole task not yet proved (correspondence + oracle); handlers propagate write errors."),
+        text="Proof on the connection model (Async/Conn.v): C12_terminates - for EVERY read script and write script (read errors, write errors, "
+             "zero-length writes, spurious not-ready results at any call index), every client byte string cut off at any offset, every buffer size and "
+             "every list of well-formed handler scripts the task returns: no Rust panic site and no loop bound of the model is reachable "
+             "(C12_total for gated clients: the only other outcome is waiting for a client that waits; C12_total_lax: rejected set_stream in a "
+             "handler is the handler's own documented panic); C12_write_all / C12_writer_prefix - a failed write leaves only a prefix of the "
+             "bytes of that write, i.e. a prefix of a well-formed record sequence, and is reported. 'No handler for an incomplete preamble' and "
+             "'unexpected-EOF instead of a short success' are decided by the correspondence check (EOF at every byte offset of short connections, a "
+             "read error at every read index, a write error / zero write at every write index) + oracle; their proofs are pending.",
+        design="6/C12", technique="Coq proof (totality of the connection model under all fault scripts; write path) + exhaustive fault-position enumeration per scripted connection through model and crate",
+        note="two clauses (no handler on partial preamble; EOF is an error) by correspondence + oracle only; handlers propagate write errors; single task."),
+    "C13": dict(
+        text="Proof on the token model (Async/Tokens.v: permit counter + event-listener queue with notify(1) being a no-op while a listener is already "
+             "notified, notified listeners passing the notification on when dropped, the acquire future trying the counter first - all modelled from "
+             "the async-lock 3.4.0 / event-listener 5.3.1 sources): for every limit and EVERY history of get_token / poll / drop-token / "
+             "drop-pending-request, live tokens + free permits = limit (C13_bound), a request polled while a slot is free completes at once "
+             "(C13_immediate), and whenever a slot is free while requests are queued some queued listener has been notified (C13_not_stranded), "
+             "wake counters only grow, listeners are owned by pending requests. Partial as the brief says: the two crates are third-party code tied by "
+             "differential execution of single-threaded histories (random + directed: k releases in a row with waiters queued, cancellation of the "
+             "notified waiter, barging) with one counting waker per request; thread interleavings inside their atomics are below the model's granularity.",
+        design="6/C13, 13.3", technique="Coq proof (inductive invariant over all operation histories of the semaphore/event-listener model) + differential execution of histories on the real Runner with counting wakers",
+        note="async-lock / event-listener internals modelled from source, not verified; single-threaded granularity; clones share the semaphore by construction."),
+    "C14": dict(
+        text="Proof on the wait-group model (Async/WaitGroup.v: Arc/Weak/AtomicWaker by their documented atomic behaviour, one poller, token drops "
+             "forced into each window of WaitGroupFuture::poll): invariant for every history (C14_wg_invariant), the shutdown future is ready exactly "
+             "when no token is alive at its liveness check - never earlier (C14_ready_iff_done), and no lost wake-up: after a Pending poll the "
+             "registered waker has been invoked as soon as the last token is gone, whether the final drop landed between the liveness check and "
+             "the registration, between registration and the release of the temporary reference, or later (C14_no_lost_wakeup). Connection side: "
+             "run_loop consults the stop listener before starting a request (C14_nothing_new); 'in-flight requests complete' and 'idle connections "
+             "stop without reading' are decided by the correspondence check (shutdown requested before every scheduling step k of Pending-heavy "
+             "connections, idle clients woken by shutdown) + oracle. The wait-group windows are forced on the real crate through the "
+             "cfg(fastcgi_server_verif) hook (/repo ed42bbf).",
+        design="6/C14, 13.4", technique="Coq proof (wait-group transition system, all window placements) + differential execution with hook-forced interleavings and shutdown injected at every scheduling step",
+        note="Arc/Weak/AtomicWaker modelled; select polls its left future first (modelled); in-flight-completes clause by correspondence + oracle."),
 }
 
 PENDING = {}
